@@ -723,7 +723,7 @@ func evalFunctionCall(node *CallExpression, env *Environment) Object {
 		return args[0]
 	}
 
-	return fn.(*Function).Value(args...)
+	return funcObj.call(args...)
 }
 
 func evalUpdateFunctionCall(node *CallExpression, env *Environment) Object {
@@ -746,7 +746,7 @@ func evalUpdateFunctionCall(node *CallExpression, env *Environment) Object {
 		return args[0]
 	}
 
-	return fn.(*Function).Value(args...)
+	return funcObj.call(args...)
 }
 
 func evalFunctionCallIdentifer(node *CallExpression, env *Environment) Object {
